@@ -170,3 +170,30 @@ PROPS["C14"] = dict(
     trusted_base=[],
     bounded=[("c14_a_star_small_grids", {"quick": 60, "thorough": 1200}), ("c14_a_star_random", {"quick": 40, "thorough": 400})],
 )
+
+PROPS["C16"] = dict(
+    producers=[("pyvc.wrapper_check", "wrapper_items")],
+    level="exploration",
+    technique="bounded: regions vs flood fill, exhaustive over small binary rasters and random larger ones; contract-level obligations only for the wrapper (kernel arguments, identity of coords/dims/attrs)",
+    not_decided=["_area_connectivity (two-pass labelling with global relabelling, np.where / None-typed locals) is outside pyvc's subset: 'adjacent equal cells share a label' and 'same label => connected' are bounded only"],
+    assumptions=[],
+    trusted_base=[],
+    allow_no_contracts=True,
+    bounded=[("c16_regions_small_grids", {"quick": 60, "thorough": 900}), ("c16_regions_random", {"quick": 30, "thorough": 300})],
+)
+PROPS["C15"] = dict(
+    level="exploration",
+    technique="bounded: point-in-polygon rasterisation round trip, exhaustive over small rasters and random larger ones (JIT on); contract-level proofs for the local helpers (_transform_points, _min_and_max, _outside_domain)",
+    not_decided=["losslessness / orientation / area are topological facts about the boundary walk (_follow) and region merging: bounded only"],
+    assumptions=[],
+    trusted_base=[],
+    bounded=[("c15_polygonize_small_grids", {"quick": 60, "thorough": 900, "jit": True}), ("c15_polygonize_random", {"quick": 40, "thorough": 400, "jit": True})],
+)
+PROPS["C05"] = dict(
+    level="exploration",
+    technique="bounded: viewshed vs an O(n^2) evaluation of the stated line-of-sight model (exhaustive 3x3 prefix + random terrains); contract-level proofs for the geometric helpers the model is built from",
+    not_decided=["equivalence of the red-black-tree angular sweep with the line-of-sight model (needs a verified augmented tree + sweep-line argument): bounded only"],
+    assumptions=[],
+    trusted_base=[],
+    bounded=[("c05_viewshed_3x3_exhaustive", {"quick": 60, "thorough": 1800}), ("c05_viewshed_random", {"quick": 45, "thorough": 600})],
+)
